@@ -19,6 +19,27 @@ def producer(t):
         return t
 
 
+def error_passthrough(t):
+    """If the returned term forwards the failure of a fallible value X unchanged — `Err(e) => return Err(e)` (optionally through
+    From::from) or `X?` (from_residual of the Break payload of Try::branch(X)) — return X, else None."""
+    from .pat import unref
+    d = unref(t)
+    if d[0] == 'agg' and d[2] == 'Err' and len(d[3]) == 1:
+        x = unref(d[3][0])
+        while x[0] == 'call' and canon(x[1]).endswith("From::from") and len(x[2]) == 1:
+            x = unref(x[2][0])
+        if x[0] == 'vfield' and x[2] == 'Err' and x[3] == 0:
+            return unref(x[1])
+        return None
+    if d[0] == 'call' and canon(d[1]).endswith("FromResidual::from_residual") and len(d[2]) == 1:
+        x = unref(d[2][0])
+        if x[0] == 'vfield' and x[2] == 'Break':
+            br = unref(x[1])
+            if br[0] == 'call' and canon(br[1]).endswith("Try::branch"):
+                return unref(br[2][0])
+    return None
+
+
 def succeeded(body, pos):
     """producer call terms known to have returned Ok/Some/Continue whenever control reaches pos"""
     out = []
